@@ -259,8 +259,8 @@ PROPS["C20"]["rules"] = PROPS["C20"]["rules"] + [rules_ref.rule_maxref, rules_bo
 PROPS["C20"]["explanation"] += " (WRAPPOS) Hwrite bounds position + length by INT32_MAX before it dispatches to a special write routine (which add the length unchecked). (REFTABLE) a table indexed by reference number has MAX_REF + 1 entries. (PARALLEL) local arrays that one running counter fills in lock-step have the same dimension. (F2g) a running counter that indexes a fixed-size static table (the token tables of scanattrs) is compared with the table size before every use. (MAXREF) the per-file highest-reference counter never decreases or wraps (see C12)."
 PROPS["C17"]["rules"] = PROPS["C17"]["rules"] + [rules_ref.rule_fresh_cursor]
 PROPS["C17"]["explanation"] += " (CURSOR) whole-directory searches start from a NULL cursor, so a new object can never be given a reference an older object already uses."
-PROPS["C01"]["rules"] = PROPS["C01"]["rules"] + [rules_ref.rule_ext_offset, rules_stale.rule_sibling_stale]
-PROPS["C01"]["explanation"] += " (SIBSTALE) no loop reads, in one arm of an if/else, an iteration-local variable that only the other arm assigns (the byte count a block walk accumulates is the one of the current block). (EXTOFF) every posn-relative seek on an external element's stream adds extern_offset, the write-retry path included."
+PROPS["C01"]["rules"] = PROPS["C01"]["rules"] + [rules_ref.rule_ext_offset, rules_stale.rule_sibling_stale, rules_ref.rule_special_first, rules_ref.rule_seek_origin]
+PROPS["C01"]["explanation"] += " (SPECIALFIRST) generic H-layer routines rewrite the descriptor behind an access record only after special elements were excluded; (SEEKORIGIN) an offset that was made absolute is not forwarded with its original origin. (SIBSTALE) no loop reads, in one arm of an if/else, an iteration-local variable that only the other arm assigns (the byte count a block walk accumulates is the one of the current block). (EXTOFF) every posn-relative seek on an external element's stream adds extern_offset, the write-retry path included."
 PROPS["C16"]["rules"] = PROPS["C16"]["rules"] + [rules_ref.rule_ext_offset]
 PROPS["C16"]["explanation"] = PROPS["C16"]["explanation"].replace(" Not decided: whether", " (EXTOFF) the retry that HXPwrite performs after a failed write seeks to the same `posn + extern_offset` as the first attempt. Not decided: whether")
 
